@@ -437,6 +437,15 @@ class ExprBuilder:
 
 
 def show(e, depth=0):
+    """rendering for messages and shape tests; total: a malformed / canonicalised node is rendered
+    with repr instead of raising"""
+    try:
+        return _show(e, depth)
+    except (IndexError, TypeError, AttributeError):
+        return repr(e)[:200]
+
+
+def _show(e, depth=0):
     if depth > 12:
         return "…"
     t = e[0]
@@ -445,7 +454,8 @@ def show(e, depth=0):
         v = e[1]
         if isinstance(v, Fraction):
             v = float(v)
-        return "%s%s" % (v, "{%s}" % e[3].split("::")[-1] if e[3] else "")
+        item = e[3] if len(e) > 3 else None   # canonical forms drop the defining item
+        return "%s%s" % (v, "{%s}" % item.split("::")[-1] if item else "")
     if t == "s":
         return repr(e[1])
     if t == "fn":
